@@ -43,7 +43,8 @@ def generate(g, tier):
             inv_limit = r.choice([5, 20, 200]) if g.chance(0.3) else None
             # the expectation below is that of the program itself: keep every stack limit that may be in force
             # (command line, project file, home file, default) clear of the program's own nesting
-            in_force = [inv_limit] if inv_limit is not None else [DEFAULTS['stack_limit'], (home_cfg or {}).get('stack_limit'), cfgs.get('proj', {}).get('stack_limit')]
+            # (a project file that applies replaces ALL options, a limit given on the command line included)
+            in_force = [inv_limit, DEFAULTS['stack_limit'], (home_cfg or {}).get('stack_limit'), cfgs.get('proj', {}).get('stack_limit')]
             tight = any(l is not None and it.max_depth + 3 > l for l in in_force)
             if kind == 'fail-end':
                 text += '\n$STRING 1/0'; nlines = text.count('\n') + 1
@@ -118,7 +119,7 @@ def generate(g, tier):
         import yaml as _y
         where = 'proj'       # (the global file is read once per process — one CLI run; only the project file is re-read by every compile)
         invs = [dict(cmd='compile', file='proj/s.txt', output='o1.txt'),
-                dict(cmd='write', path=('proj/config.yaml' if where == 'proj' else '../home/.duckling/config.yaml'), content=_y.dump(dict(DEFAULTS, **c2) if where == 'home' else c2)),
+                dict(cmd='write', path=('proj/config.yaml' if where == 'proj' else '../home/.duckling/config.yaml'), content=_y.dump(dict(DEFAULTS, **c2) if where == 'home' else c2), dir='proj', cfg=c2),
                 dict(cmd='compile', file='proj/s.txt', output='o2.txt')]
         steps = [expect(c1), dict(expect='write'), expect(c2)]
         cases.append(dict(op='cli', home_cfg=(dict(DEFAULTS, **c1) if where == 'home' else None), files={'proj/s.txt': text}, cfgs=({'proj': c1} if where == 'proj' else {}),
@@ -153,7 +154,61 @@ def generate(g, tier):
         if valid and not pre: invs.append(dict(cmd='compile', file=base + '/main.txt', output='hello.txt'))
         cases.append(dict(op='cli', home_cfg=None, invocations=invs, pre_files=pre,
                           meta=dict(family='new', base=base, valid=valid, nocorr=True)))
+    for c in cases:
+        if eligible(c): c['meta']['clicorr'] = True
     return cases
+
+
+def eligible(c):
+    """cases the CLI model (Model/Cli.lean: cliCompile over an abstract file system) can be asked about: compile invocations and edits
+    of the project file, configuration files given by their meaning"""
+    if c.get('op') != 'cli' or c.get('meta', {}).get('family') != 'compile': return False
+    if not all(isinstance(v, dict) for v in (c.get('cfgs') or {}).values()): return False
+    if c.get('home_cfg') is not None and not isinstance(c['home_cfg'], dict): return False
+    return all(i['cmd'] == 'compile' or (i['cmd'] == 'write' and 'cfg' in i) for i in c['invocations'])
+
+
+def model_view(c):
+    pre = {p: (t if isinstance(t, str) else '<bytes>') for p, t in (c.get('pre_files') or {}).items()}
+    return dict(op='cli', id=c.get('id'), files=c.get('files') or {}, cfgs=c.get('cfgs') or {}, home_cfg=c.get('home_cfg'), pre_files=pre, invocations=c['invocations'])
+
+
+def model_diff(c, r, m):
+    """where the real command line and the CLI model (the function the C19 theorems are about) differ on one sequence of invocations:
+    success / failure, the bytes at the output path, which files changed, error class, innermost lines, prints, what the project
+    and global configuration files denote afterwards"""
+    if r.get('kind') != 'cli' or m is None or m.get('kind') != 'cli': return None
+    for k, (inv, st, ms) in enumerate(zip(c['invocations'], r['steps'], m['steps'])):
+        if inv['cmd'] != 'compile': continue
+        if ms.get('kind') in ('oom', 'unsupported', 'crash'): return None       # the model declines; the state afterwards is unknown to it
+        if st['raised']: return dict(step=k, impl='raised ' + st['raised'], model=ms.get('kind'))
+        b, a, so = st['before'], st['after'], st['stdout']
+        outp = 'work/' + inv.get('output', 'a.txt')
+        was_pre = isinstance((c.get('pre_files') or {}).get(inv.get('output', 'a.txt')), dict)
+        ok_i, fail_i = 'Compilation complete!' in so, 'Compile failed with an error.' in so
+        if ms['kind'] == 'success':
+            if not ok_i: return dict(step=k, impl='no success report', model='success', stdout=so[-200:])
+            if a.get(outp) != ms['outText']: return dict(step=k, what='output file', impl=a.get(outp, '<absent>')[:200], model=(ms['outText'] or '')[:200])
+            # (the number of warnings is not comparable: the implementation de-duplicates them by object identity, the model by value)
+            if bool(ms.get('warnings')) != ('(with ' in so and ' warning' in so): return dict(step=k, what='warnings reported', impl=so[-200:], model=ms.get('warnings'))
+        else:
+            if not fail_i: return dict(step=k, impl='no failure report', model=ms.get('cls'), stdout=so[-200:])
+            if ms['cls'] + ':' not in so: return dict(step=k, what='error class', impl=so[-300:], model=ms['cls'])
+            if a.get(outp) != b.get(outp): return dict(step=k, what='output path on failure', impl='changed', model='untouched')
+            for f in ms.get('trace') or []:
+                if f'n line {f[1]}' not in so: return dict(step=k, what='trace line', impl=so[-400:], model=ms['trace'])
+        for pr in ms.get('prints') or []:
+            if pr[0] and pr[0] not in so: return dict(step=k, what='prints', impl=so[-300:], model=ms['prints'])
+        changed_i = sorted(p for p in set(a) | set(b) if a.get(p) != b.get(p) and not p.endswith('config.yaml') and not p.endswith('/'))
+        changed_m = sorted('work/' + p for p in ms.get('changed') or [])
+        if not was_pre and changed_i != changed_m: return dict(step=k, what='files changed', impl=changed_i, model=changed_m)
+        pdir = '/'.join(inv['file'].split('/')[:-1])
+        pc = a.get('work/' + (pdir + '/' if pdir else '') + 'config.yaml')
+        if (pc is None) != (ms['projAfter'] is None): return dict(step=k, what='project file exists', impl=pc, model=ms['projAfter'])
+        if pc is not None and denote(pc) != ms['projAfter']: return dict(step=k, what='project file meaning', impl=denote(pc), model=ms['projAfter'])
+        gc = a.get('home/.duckling/config.yaml')
+        if gc is not None and ms['globalAfter'] is not None and denote(gc) != ms['globalAfter']: return dict(step=k, what='global file meaning', impl=denote(gc), model=ms['globalAfter'])
+    return None
 
 
 def cfg_paths(snap):
